@@ -4,7 +4,7 @@ the bool-compare helpers and the membership-equality obligation of display-flatt
 import ast, dis, os, re
 
 from ..core import Rule, AnalysisError, node_src
-from ..engine import pyflow, tables
+from ..engine import tables
 from ..engine.pyindex import walk_no_nested, is_self_attr
 from ..rules import iface, typed
 from ..rules import pC14
@@ -35,7 +35,34 @@ ASSUMPTIONS = ['a C switch is only correct for integer/enum operands without dup
 
 EXEMPT = {}
 
-MUTATIONS = []      # filled in below (kept at the end of the file for readability)
+MUTATIONS = [
+    # (file, single edit on a scratch copy, rule that reported it) -- all 20 reported (exit 1) with a message naming the construct
+    ('Cython/Compiler/Optimize.py', 'visit_CondExprNode: drop `or self.has_duplicate_values(conditions)`', 'C19-SWITCH'),
+    ('Cython/Compiler/Optimize.py', 'visit_IfStatNode: delete the `if self.has_duplicate_values(condition_values): ... return node` block', 'C19-SWITCH'),
+    ('Cython/Compiler/Optimize.py', 'visit_PrimaryCmpNode: self.has_duplicate_values([]) instead of (conditions)', 'C19-SWITCH'),
+    ('Cython/Compiler/Optimize.py', 'visit_IfStatNode: delete `if common_var is None: ... return node` inside the clause loop', 'C19-SWITCH'),
+    ('Cython/Compiler/Optimize.py', 'extract_common_conditions: delete the is_int/is_enum elif', 'C19-SWITCH'),
+    ('Cython/Compiler/Optimize.py', 'extract_common_conditions: keep only the test of var, drop any([... for cond in conditions])', 'C19-SWITCH'),
+    ('Cython/Compiler/Optimize.py', 'has_duplicate_values: `if value.constant_result in seen: return False`', 'C19-SWITCH'),
+    ('Cython/Compiler/Optimize.py', 'has_duplicate_values: `except AttributeError: return False`', 'C19-SWITCH'),
+    ('Cython/Compiler/Optimize.py', 'visit_BoolBinopNode: pass list(conditions) + [common_var] to build_simple_switch_statement', 'C19-SWITCH'),
+    ('Cython/Compiler/ExprNodes.py', 'PrimaryCmpNode.generate_evaluation_code: second self.operand2.generate_evaluation_code(code) under is_temp', 'C19-ONCE'),
+    ('Cython/Compiler/ExprNodes.py', 'CascadedCmpNode.generate_evaluation_code: operand2 evaluated before the `if (result) {` line', 'C19-SHORT'),
+    ('Cython/Compiler/ExprNodes.py', 'CascadedCmpNode.generate_evaluation_code: drop the final code.putln("}")', 'C19-SHORT'),
+    ('Cython/Compiler/ExprNodes.py', 'find_special_bool_compare_function: UCS4 branch binds __Pyx_PyUnicode_ContainsTF', 'C19-CMPH'),
+    ('Cython/Compiler/ExprNodes.py', 'find_special_bool_compare_function: "__Pyx_PySet_ContainsTF" -> "__Pyx_PyAnySet_ContainsTF"', 'C19-CMPH'),
+    ('Cython/Compiler/ExprNodes.py', 'generate_operation_code: f"{function}({op1}, {op2})" without the richcmp constant', 'C19-CMPH'),
+    ('Cython/Utility/ObjectHandling.c', '__Pyx_PySequence_ContainsTF loses its `int eq` parameter', 'C19-CMPH'),
+    ('Cython/Compiler/ExprNodes.py', 'richcmp_constants["<"] = "Py_GT"', 'C19-TAB'),
+    ('Cython/Compiler/ExprNodes.py', 'richcmp_constants["not_in"] = "Py_EQ"', 'C19-TAB'),
+    ('Cython/Compiler/ExprNodes.py', "c_operator: 'is_not' -> \"==\"", 'C19-TAB'),
+    ('Cython/Compiler/ExprNodes.py', 'CascadedCmpNode: emitted __Pyx_PyObject_IsTrue(%s, 1)', 'C19-I5'),
+    ('Cython/Compiler/Optimize.py', 'FlattenInListTransform: (with an `is`/`is_not` PrimaryCmpNode disjunct added per element the rule is silent) remove that disjunct again', 'C19-MEMEQ (fires on the clean tree: known finding K5)'),
+    # behaviour preserving: only the K5 finding remains
+    ('Cython/Compiler/Optimize.py', 'visit_CondExprNode: guard split into two ifs with a local `too_few`', 'silent'),
+    ('Cython/Compiler/Optimize.py', 'extract_common_conditions: type test rewritten as two ifs, second one `not all(c.type.is_int or c.type.is_enum for c in conditions)`', 'silent'),
+    ('Cython/Compiler/ExprNodes.py', 'PrimaryCmpNode.generate_evaluation_code: extra local aliases; richcmp_constants rows reordered; c_operator branches reordered', 'silent'),
+]
 
 
 def _method(c, name):
@@ -50,7 +77,7 @@ def rule_SWITCH(ctx):
     ix = ctx.index
     cls = ix.cls('Optimize', 'SwitchTransform')
     rel = cls.module.rel
-    r = Rule('C19-SWITCH', 'every SwitchStatNode is created only after a failing duplicate test over its case values and from type-tested extract_common_conditions results', floor=12)
+    r = Rule('C19-SWITCH', 'every SwitchStatNode is created only after a failing duplicate test over its case values and from type-tested extract_common_conditions results', floor=11)
     ext = _method(cls, 'extract_common_conditions')
     dupf = _method(cls, 'has_duplicate_values')
     vi, ci, problems, nret = P.extractor_contract(ext)
@@ -134,7 +161,7 @@ def rule_SHORT(ctx):
     ix = ctx.index
     c = ix.cls('ExprNodes', 'CascadedCmpNode')
     fn = _method(c, 'generate_evaluation_code')
-    r = Rule('C19-SHORT', 'CascadedCmpNode: operand evaluation and comparison of a chained link are emitted inside the `if (<result so far>) {` guard, closed on every path', floor=3)
+    r = Rule('C19-SHORT', 'CascadedCmpNode: operand evaluation and comparison of a chained link are emitted inside the `if (<result so far>) {` guard, closed on every path', floor=4)
     params = [a.arg for a in fn.args.args]
     if len(params) < 3:
         raise AnalysisError('CascadedCmpNode.generate_evaluation_code lost its result parameter')
@@ -278,7 +305,9 @@ def rule_CMPH(ctx):
                 raise AnalysisError('find_compare_function returns %s, not a resolvable helper name' % node_src(n.value))
             for nm in sorted(names):
                 check(nm, pat, em_generic, 'object', n.lineno, cfinder.name)
-    r.positive_control(3 in em_special and 3 in em_generic and not typed.c_prototypes(ctx, '__Pyx_PyNoSuch_ContainsTF'), 'undeclared helper has no prototype; templates pass 3 arguments')
+    pcf = ast.parse("def g(self, code, r, f, a, b):\n    code.putln('%s = %s(%s, %s);' % (r, f, a, b))\n").body[0]
+    r.positive_control(_dynamic_call_arities(pcf).get('f') == {2} and not typed.c_prototypes(ctx, '__Pyx_PyNoSuch_ContainsTF'),
+                       'two-argument emission through a computed callee is counted; an undeclared helper has no prototype')
     return r
 
 
@@ -302,7 +331,7 @@ def _richcmp_reference():
 def rule_TAB(ctx):
     ix = ctx.index
     m = ix.mod('ExprNodes')
-    r = Rule('C19-TAB', 'richcmp_constants agrees with dis.cmp_op / Py_LT..Py_GE of the CPython headers; in/not_in use the equality pair; c_operator maps is/is_not to ==/!=', floor=10)
+    r = Rule('C19-TAB', 'richcmp_constants agrees with dis.cmp_op / Py_LT..Py_GE of the CPython headers; in/not_in use the equality pair; c_operator maps is/is_not to ==/!=', floor=13)
     node = tables.module_assign(m.tree, 'richcmp_constants')
     table = tables.literal(node) if node is not None else None
     if not isinstance(table, dict):
@@ -433,7 +462,7 @@ def run(ctx):
         rule_ONCE(ctx),
         rule_SHORT(ctx),
         rule_CMPH(ctx),
-        iface.rule_I5(ctx, modules=('ExprNodes',), floor=3, names=lambda n: n in emitted, rid='C19-I5'),
+        iface.rule_I5(ctx, modules=('ExprNodes',), floor=5, names=lambda n: n in emitted, rid='C19-I5'),
         rule_TAB(ctx),
         rule_MEMEQ(ctx),
     ]
